@@ -676,6 +676,14 @@ def _directed():
                              g.cmp('>', g.column('B', 'w'), g.lit(0)))),
         g.query(g.join(a, b, 'right', g.cmp('==', g.column('A', 'x'), g.column('B', 'x'))),
                 select=(g.column('A', 'x'), g.column('B', 'w'))),
+        # mirrored non-commutative expressions in one statement / in consecutive statements of one process
+        g.query(a, select=(g.alias(g.arith('-', g.column('A', 'x'), g.column('A', 'y')), 'p'),
+                           g.alias(g.arith('-', g.column('A', 'y'), g.column('A', 'x')), 'q'))),
+        g.query(a, select=(g.column('A', 'x'), g.column('A', 'y')), where=g.cmp('>', g.column('A', 'x'), g.column('A', 'y')),
+                orderby=((g.arith('-', g.column('A', 'y'), g.column('A', 'x')), 'asc'), (g.column('A', 's'), 'asc'))),
+        g.query(a, select=(g.column('A', 'x'), g.column('A', 'y')), where=g.cmp('>', g.column('A', 'y'), g.column('A', 'x'))),
+        g.query(a, select=(g.alias(g.cmp('<', g.column('A', 'x'), g.column('A', 'y')), 'lt'),
+                           g.alias(g.cmp('<', g.column('A', 'y'), g.column('A', 'x')), 'gt'))),
     ] + referenced_joins()
 
 
